@@ -255,6 +255,18 @@ def optMPO (f : MPOM GQ → Json) (o : Option (MPOM GQ)) : Json := match o with 
 
 def epsSqDefault : Rat := (1 / 10000000000 : Rat) * (1 / 10000000000 : Rat)
 
+
+/-- a canonical matrix-unit operator sum applied to a canonical state (sum of basis strings) -/
+def applyOp (T U : List (OpStr × GQ)) : List (OpStr × GQ) :=
+  canonOp (T.flatMap (fun (o, c) => U.filterMap (fun (y, e) =>
+    let parts := o.map (fun n => n.splitOn ",")
+    if parts.length = y.length && (parts.zip y).all (fun (ab, yk) => ab.getD 1 "" == yk) then
+      some (parts.map (fun ab => ab.getD 0 ""), c * e)
+    else none)))
+
+/-- `<s|u>` of two canonical states -/
+def innerState (s u : List (OpStr × GQ)) : GQ := frobCanon s u
+
 def handleExt (j : Json) : Except String Json := do
   let dims ← natList (← field j "d")
   let finite ← getBool (fieldD j "finite" true)
@@ -270,15 +282,21 @@ def handleExt (j : Json) : Except String Json := do
     let cuts ← natList (fieldD j "cuts" (Json.arr #[]))
     let e : Env GQ := ⟨phi, A.m, psi, A.plusHc⟩
     let vals := cuts.map (fun i0 => Env.fullContraction melUnit GQ.conj e i0)
+    -- independent evaluation of <bra| H |ket> from the denotations: H applied to the canonical ket, then the
+    -- inner product with the canonical bra (matrix units: "a,b" maps |b> to |a>)
+    let dH := canonOp A.m.denote
     let specs := cuts.map (fun i0 =>
-      let t := tri melUnit GQ.conj (phi.state i0) A.m.denote (psi.state i0)
+      let t := innerState (canonOp (phi.state i0)) (applyOp dH (canonOp (psi.state i0)))
       if A.plusHc then t + GQ.conj t else t)
-    out := out ++ [("full_contraction", ofList optGQ vals), ("full_contraction_spec", ofList ofGQ specs)]
-    let names (i : Nat) : List String := (List.range (dims.getD i 1)).map toString
-    out := out ++ [("ev", optGQ (A.m.expectationValueFinite melUnit GQ.conj A.plusHc psi)),
-                   ("var_contr", optGQ (A.m.varianceContr melUnit GQ.conj names psi)),
-                   ("variance", optGQ (A.m.variance melUnit GQ.conj names finite A.plusHc psi)),
-                   ("var_spec", ofGQ (quad melUnit GQ.conj names psi.thetaState A.m.denote A.m.denote psi.thetaState))]
+    out := out ++ [("full_contraction", ofList optGQ vals), ("full_contraction_spec", ofList ofGQ specs),
+                   ("ev", optGQ (A.m.expectationValueFinite melUnit GQ.conj A.plusHc psi))]
+    let doVar ← getBool (fieldD j "var" false)
+    if doVar then
+      let names (i : Nat) : List String := (List.range (dims.getD i 1)).map toString
+      let th := canonOp psi.thetaState
+      out := out ++ [("var_contr", optGQ (A.m.varianceContr melUnit GQ.conj names psi)),
+                     ("variance", optGQ (A.m.variance melUnit GQ.conj names finite A.plusHc psi)),
+                     ("var_spec", ofGQ (innerState th (applyOp dH (applyOp dH th))))]
   | .error _ => pure ()
   -- sort_legcharges
   match j.getObjVal? "sort" with
@@ -335,7 +353,8 @@ def handleExt (j : Json) : Except String Json := do
     let mrArg ← parseMaxRange (fieldD j "isEqualMaxRange" Json.null)
     let ov := MPOX.overlap gramUnit GQ.conj hcUnit A B ns
     let n? := MPOX.overlapNumSites A B ns
-    let ovSpec : Json := match n? with
+    let doSpec ← getBool (fieldD j "overlapSpec" true)
+    let ovSpec : Json := match (if doSpec then n? else none) with
       | some n => ofGQ (frobCanon (canonOp (A.window hcUnit GQ.conj n)) (canonOp (B.window hcUnit GQ.conj n)))
       | none => Json.null
     let dist := MPOX.distance gramUnit GQ.conj hcUnit (fun z : GQ => z.re) ((1 : Rat) / 100000000000000) A B ns
